@@ -10,7 +10,7 @@
 From Coq Require Import List NArith Bool.
 From JV Require Import Model.C08_History Proofs.C08_Proofs.
 Import ListNotations.
-Open Scope N_scope.
+Local Open Scope N_scope.
 
 (* every entry of a derived cache that can be reached through the cache item currently stored
    under a key was computed from the tree stored under that key (no proviso needed) *)
